@@ -5,6 +5,18 @@ TIE_THEOREMS = ["tie_codes", "tie_codes_table", "tie_no_extra", "tie_codes_nodup
 
 EV = dict(stream="EV", module="RP.Glue.StreamEV")
 
+DEC = dict(stream="DEC", module="RP.Glue.StreamDEC")
+AMB = dict(stream="AMB", module="RP.Glue.StreamDEC")
+
+RULE_DEC = ("stream DEC (decoder kind, packet): every decoder x every payload length 0..=70 with the kind's code in place and tag-like bytes; "
+            "valid encodings from an independent layout table, each perturbed (error flag, every code 0..=0x12/0xffff, length +-1, truncation at a random "
+            "point, bit flip, foreign decoder, every variant tag and flag byte 0..=255, 32-bit message tags incl. >= 256, non-zero padding, declared data "
+            "length 0/1/+-1/near 65535); data events declaring up to 65535 bytes; random packets against random decoders; distinct case lines are counted")
+RULE_EV = ("stream EV: for each of the 16 kinds, events with boundary-biased and tag-like field values, every brightness/relay/message variant, data payloads of "
+           "boundary and random sizes up to 65535 bytes; distinct case lines are counted")
+RULE_AMB = ("stream AMB: packets of stream DEC (each offered to all 16 decoders) and encodings of generated events of every kind with tag-like field values "
+            "(offered to all 16 decoders: the 16 x 16 encoder/decoder matrix); distinct case lines are counted")
+
 HOOK_COMMITS = ["c3ab119"]
 NOT_APPLICABLE = {}
 
@@ -26,5 +38,37 @@ PROPS = {
              "brightness/relay/message variant, data payloads of boundary and random sizes up to 65535 bytes with constant/coloured/random bytes; "
              "a case is non-trivial when it is a distinct event value (distinct case lines are counted)",
         assumptions=["MessageValue padding bytes are unspecified and masked to zero on the implementation side"],
+    ),
+    "C05": dict(
+        vfiles=["Props/C05"],
+        technique="Coq proof by case analysis over the 16 decoders and the shape of the payload (sub-value decoders characterised by lemmas), against an independently written specification of lengths and rejection reasons; correspondence on generated malformed and valid packets",
+        level_text="Theorem C05_exact: for every kind and every packet of bytes the decoder returns a value or an error value (never panics); a value only for a "
+                   "non-error packet with the kind's code and exactly the layout's length, in the domain and stable under re-encoding; every reported rejection "
+                   "reason truly applies. Quantifies over all payload lengths and bytes, which no finite sample covers.",
+        level_note=NOTE_COMMON + " On the implementation side the raw repr(C) image of a decoded MessageValue is inspected before it is matched on (INVALID if tag > 3 or Bool byte > 1).",
+        streams=[dict(DEC, view="view_C05", ok="ok_C05")],
+        rule=RULE_DEC,
+        assumptions=["BcmValue::Binary decodes any non-zero flag byte as true: inside the domain and stable under re-encoding, so not a violation (DESIGN.md section 9.1)"],
+    ),
+    "C11": dict(
+        vfiles=["Props/C11"], tie=True,
+        technique="Coq proof that every encoder equals an independently written table-driven layout serialiser, and that an independently written strict reference decoder inverts that layout (so the decoders agree with it); event codes re-translated from the source and the tie re-proved each run; correspondence on generated events/packets",
+        level_text="Theorems C11_encode_layout (encode e = layout_encode e for every well-formed event), C11_codes (the code table), C11_ref_sound and C11_decode_agrees "
+                   "(whenever the reference decoder accepts a packet, the decoder returns the same value). Generated/Tie.v re-proves on every run that the event "
+                   "code constants in src/event/event_code.rs are that table.",
+        level_note=NOTE_COMMON,
+        streams=[dict(EV, view="view_C11_EV", ok="ok_C11_EV"), dict(DEC, view="view_C11_DEC", ok="ok_C11_DEC")],
+        rule=RULE_EV + "; " + RULE_DEC,
+        assumptions=["MessageValue padding bytes are unspecified and masked to zero on the implementation side", "little-endian host for the MessageValue image"],
+    ),
+    "C12": dict(
+        vfiles=["Props/C12"], tie=True,
+        technique="Coq proof: acceptance by any decoder forces the packet's leading code to equal the kind's code, and the code table is injective (also re-proved NoDup over the constants re-read from the source); correspondence on the 16-decoder acceptance vector",
+        level_text="Theorems C12_unique (for ANY packet at most one of the 16 decoders returns a value), C12_cross (the encoding of an event is rejected with an error "
+                   "value by each of the 15 other decoders), C12_codes_injective; Generated/Tie.v re-proves pairwise distinctness of the codes as the source states them.",
+        level_note=NOTE_COMMON,
+        streams=[dict(AMB, view="view_C12", ok="ok_C12")],
+        rule=RULE_AMB,
+        assumptions=["a decoder that panics or materialises an invalid value counts as a failure of C12's classification too"],
     ),
 }
